@@ -10,10 +10,11 @@ Open Scope N_scope.
    Free: real goroutines under the Go scheduler: getters call GetDataType before
          any type is declared; setter i then calls SetDataType on each element of
          (nth i sets) and closes.  gets = what the getters returned, final = the
-         data type of the pipe at the end, bad = hang or other failure. *)
+         data type of the pipe at the end, hang = some GetDataType did not return
+         within the deadline (the harness then cancels the pipe and gives up). *)
 Inductive case :=
 | Ctl (max : N) (progs : list (list op)) (sched : list nat) (obs : ctl_obs)
-| Free (sets : list (list bytes)) (gets : list bytes) (final : bytes) (bad : bool).
+| Free (sets : list (list bytes)) (gets : list bytes) (final : bytes) (hang : bool).
 
 (* ------------------------------------------------------------ equality of observations *)
 
@@ -76,12 +77,26 @@ Fixpoint dt_ok (cur : bytes) (os : list ostep) : bool :=
                bytes_eqb t lit_generic && ((sn_deps (os_sn o) <? 1)%Z || sn_canc (os_sn o))
              else bytes_eqb t cur'
          | EvPanic => false
+         | EvHang => false
          | _ => true
          end
       && dt_ok cur' rest
   end.
 
-Definition spec_ctl (o : ctl_obs) : bool := dt_ok [] (co_steps o).
+(* "waits until a type is declared or all writers close" - and then it returns:
+   a poll (yield point g.poll = 20) that finds a type declared or no writer open,
+   and a context poll (g.sel = 19) after cancellation, is the step at which
+   GetDataType returns. *)
+Definition must_return (o : ostep) : bool :=
+  if N.eqb (os_pt o) 20 then negb (is_nil (sn_dt (os_sn o))) || (sn_deps (os_sn o) <? 1)%Z
+  else if N.eqb (os_pt o) 19 then sn_canc (os_sn o)
+  else false.
+
+Definition returns_ok (o : ostep) : bool :=
+  if must_return o then match os_ev o with EvDT _ => true | _ => false end else true.
+
+Definition spec_ctl (o : ctl_obs) : bool :=
+  dt_ok [] (co_steps o) && forallb returns_ok (co_steps o).
 
 (* first valid type of one setter *)
 Fixpoint first_valid (l : list bytes) : bytes :=
@@ -96,24 +111,26 @@ Definition mem_bytes (x : bytes) (l : list bytes) : bool := existsb (bytes_eqb x
    every getter got the final type, or `*` if none was ever declared *)
 Definition none_of (l : list bytes) : bool := match l with [] => true | _ => false end.
 
-Definition spec_free (sets : list (list bytes)) (gets : list bytes) (final : bytes) (bad : bool) : bool :=
+Definition spec_free (sets : list (list bytes)) (gets : list bytes) (final : bytes) (hang : bool) : bool :=
   let firsts := filter (fun t => negb (is_nil t)) (map first_valid sets) in
-  negb bad
+  negb hang
   && (if is_nil final then none_of firsts else mem_bytes final firsts)
   && forallb (fun g => bytes_eqb g (if is_nil final then lit_generic else final)) gets.
 
 Definition spec_ok (c : case) : bool :=
   match c with
   | Ctl _ _ _ obs => spec_ctl obs
-  | Free sets gets final bad => spec_free sets gets final bad
+  | Free sets gets final hang => spec_free sets gets final hang
   end.
 
 (* correspondence: the model predicts every step of a controlled run exactly;
-   a free run's interleaving is unknown to the model: only that it did not fail *)
+   a free run's interleaving is unknown to the model: only that it did not hang
+   (in the model GetDataType returns within two steps once a type is declared or
+   all writers closed: C02_get_terminates_if) *)
 Definition agree (c : case) : bool :=
   match c with
   | Ctl max progs sched obs => ctl_obs_eqb (run_ctl max progs sched) obs
-  | Free _ _ _ bad => negb bad
+  | Free _ _ _ hang => negb hang
   end.
 
 (* known-finding classifier: none listed for C02. *)
